@@ -117,6 +117,7 @@ def b_getattr_module(ex, st, args, kwargs, node):
 
 
 def install(reg):
+    readfile.install(reg)
     reg.ext_models["str.lower"] = m_lower
     reg.ext_models["os.path.splitext"] = m_splitext
     reg.ext_models["mimetypes.guess_type"] = m_guess_type
@@ -126,18 +127,9 @@ def install(reg):
 from pyvc.symex import Executor  # noqa: E402
 
 
-class RouterExecutor(Executor):
-    """getattr(<module>, name) denotes the function object identified by the
-    (module path, attribute name) pair."""
+from contracts import readfile  # noqa: E402
 
-    def b_getattr(self, st, args, kwargs, node):
-        a0 = args[0]
-        if isinstance(a0, VTuple) and len(a0.items) == 2 and isinstance(a0.items[0], VStr) and a0.items[0].const() == "<module>":
-            return [(st, VTuple([a0.items[1], args[1]]))]
-        return super().b_getattr(st, args, kwargs, node)
-
-
-EXECUTOR = RouterExecutor
+EXECUTOR = readfile.ReadFileExecutor
 
 
 def contracts(reg):
@@ -196,6 +188,45 @@ def contracts(reg):
         returns=ge_returns,
         ensures=[("returns-only-when-supported", lambda c: z3.Not(ge_raises(c)))],
         raises=[Raises(NOTSUP, when=ge_raises)],
+    ))
+
+    # read_file dispatches through get_extractor(str(Path(path))) and calls exactly the returned extractor
+    def rf_dispatch(c):
+        d = c.st.ghost.get("dispatch", ())
+        if len(d) != 1:
+            return z3.BoolVal(False)
+        ext, args = d[0]
+        if len(args) != 2 or not isinstance(args[1], VStr):
+            return z3.BoolVal(False)
+        p = z3.Const("p!rf", readfile.PathS)
+        # the second argument is str(P) for a Path P built directly from the caller's path string, and the
+        # extractor is the one get_extractor's contract yields for that very string
+        s_arg = args[1].t
+        cands = []
+        for (fexp, val) in ge_returns_for(s_arg):
+            cands.append(z3.And(fexp, ops.eq_term(ext, val)))
+        return z3.And(z3.Or(cands), is_pstr_of_param(c, s_arg))
+
+    def is_pstr_of_param(c, s_arg):
+        # s_arg must be syntactically PSTR(P) with PSRC(P) == path assumed on the path
+        if not (z3.is_app(s_arg) and s_arg.decl().name() == "path_str"):
+            return z3.BoolVal(False)
+        P = s_arg.arg(0)
+        return z3.And(z3.BoolVal(P.get_id() in c.st.ghost.get("paths_from_param", frozenset())), readfile.PSRC(P) == c.args["path"].t)
+
+    def ge_returns_for(s_term):
+        p = LOWER(s_term)
+        is_none, val = ft_spec(p)
+        return [(z3.Not(is_none), reg_lookup(val)), (z3.And(is_none, mime_ok(p)), reg_lookup(mime_ft(p)))]
+
+    from pyvc.verify import p_int as _p_int
+    out.append(FnContract(
+        target=f"{readfile.INIT}::read_file",
+        params=[("path", p_str()), ("max_file_size", _p_int())],
+        generator=True,
+        ensures=[("dispatches-to-get_extractor(str(Path(path)))-with-that-path", rf_dispatch)],
+        raises=[Raises("Exception", sub=True, label="failure surface is C01's obligation")],
+        note="read_file reaches exactly the extractor get_extractor selects for the caller's path",
     ))
 
     def mime_spec(c):
